@@ -82,13 +82,13 @@ type Op struct {
 	// for consecutive rows, assigns the variables and hands the same slice to Row
 	Reuse bool `json:"reuse,omitempty"`
 	// Quiet (binrows): rows are counted, not recorded one by one (very long streams)
-	Quiet bool     `json:"quiet,omitempty"`
+	Quiet bool `json:"quiet,omitempty"`
 	// CancelIn (row, 1-based column): that column's value is handed over as a
 	// pgtype.TextValuer whose TextValue() cancels the session context - a time
 	// limit that runs out while that very value is being encoded
 	CancelIn int      `json:"cancel_in,omitempty"`
 	Err      *ErrSpec `json:"err,omitempty"`
-	OIDs  []uint32 `json:"oids,omitempty"`
+	OIDs     []uint32 `json:"oids,omitempty"`
 }
 
 // ErrSpec builds an error with the library's decorators applied in Order
